@@ -62,8 +62,10 @@ Body(k, n, props, allOf) == [k |-> k, n |-> n, props |-> props, allOf |-> allOf]
 NoBody == Body("none", "", << >>, << >>)
 P(key, vk, vn) == [key |-> key, vk |-> vk, vn |-> vn]
 
+\* "nobj": a nested object that carries its own allOf rule:  "no": { // {allOf: "@b"}  "nk": 1 }
 PropPool == {P("id", "int", ""), P("name", "str", ""), P("ra", "ref", "@a"), P("rb", "ref", "@b"),
              P("la", "arr", "@a"), P("en", "enum", "@e"), P("k1", "int", ""), P("k2", "str", "")}
+            \cup (IF "nested" \in Features THEN {P("no", "nobj", "@b"), P("nc", "nobj", "@c")} ELSE {})
 SmallPropPool == {P("id", "int", ""), P("rb", "ref", "@b"), P("en", "enum", "@e")}
 
 PropSeqs == IF Rich
@@ -193,7 +195,7 @@ IdOf(e) == e.proto \o " " \o e.name \o " " \o PathStr(e.path)
 (* Well-formedness (what the language requires of a document)              *)
 
 BodyRefs(b) == (IF b.k \in {"ref", "arr"} THEN {b.n} ELSE {})
-               \cup {b.props[i].vn : i \in {j \in 1..Len(b.props) : b.props[j].vk \in {"ref", "arr"}}}
+               \cup {b.props[i].vn : i \in {j \in 1..Len(b.props) : b.props[j].vk \in {"ref", "arr", "nobj"}}}
                \cup Range(b.allOf)
 BodyEnums(b) == {b.props[i].vn : i \in {j \in 1..Len(b.props) : b.props[j].vk = "enum"}}
 
@@ -222,6 +224,8 @@ AllKeys(tt, b) ==   \* own and inherited keys, in catalog order
   IN Bases(1) \o [i \in 1..Len(b.props) |-> b.props[i].key]
 AllOfOK(d, b) ==
   /\ \A i \in 1..Len(b.allOf) : b.allOf[i] \in DefinedTypes(d) /\ TypeTable(d)[b.allOf[i]].k = "obj"
+  /\ \A i \in 1..Len(b.props) : b.props[i].vk = "nobj" =>
+        (b.props[i].vn \in DefinedTypes(d) /\ TypeTable(d)[b.props[i].vn].k = "obj")
   /\ NoDup(AllKeys(TypeTable(d), b))
 
 \* similar paths: the same prefix may not continue with two different parameter names
@@ -280,7 +284,8 @@ Valid(d) ==
 -----------------------------------------------------------------------------
 (* The catalog a valid document denotes                                    *)
 
-Child(key, tt, ty, sc, inh) == [key |-> key, tt |-> tt, type |-> ty, scalar |-> sc, inh |-> inh]
+\* kids: for a nested object, its own children as <<key, inheritedFrom>> pairs
+Child(key, tt, ty, sc, inh) == [key |-> key, tt |-> tt, type |-> ty, scalar |-> sc, inh |-> inh, kids |-> << >>]
 PropView(p, inh) ==
   CASE p.vk = "int"  -> Child(p.key, "number", "integer", "1", inh)
     [] p.vk = "str"  -> Child(p.key, "string", "string", "v", inh)
@@ -297,7 +302,11 @@ ChildrenOf(tt, b) ==
         IF i > Len(b.allOf) THEN << >>
         ELSE LET base == ChildrenOf(tt, tt[b.allOf[i]])
              IN [j \in 1..Len(base) |-> [base[j] EXCEPT !.inh = b.allOf[i]]] \o FromBases(i + 1)
-  IN FromBases(1) \o [i \in 1..Len(b.props) |-> PropView(b.props[i], "")]
+      Own(p) == IF p.vk # "nobj" THEN PropView(p, "")
+                ELSE LET base == ChildrenOf(tt, tt[p.vn])
+                     IN [Child(p.key, "object", "object", "", "") EXCEPT
+                           !.kids = [j \in 1..Len(base) |-> <<base[j].key, p.vn>>] \o << <<"nk", "">> >>]
+  IN FromBases(1) \o [i \in 1..Len(b.props) |-> Own(b.props[i])]
 
 SV(notation, tt, ty, sc, children) ==
   [notation |-> notation, tt |-> tt, type |-> ty, scalar |-> sc, children |-> children]
